@@ -971,3 +971,9 @@ package rockredis
 //@   ensures result0 == 0 && result1 == nil ==> ghost(wbputs, db.wb) == old(ghost(wbputs, db.wb)) && ghost(commits, db.rockEng) == old(ghost(commits, db.rockEng))
 //@   ensures result0 != 0 ==> result0 == 1
 //@   modifies ghost(wbputs, _), ghost(wbdels, _), ghost(wbver, _), ghost(commits, _), ghost(cputs, _), ghost(cdels, _), ghost(cver, _), ghost(tblcnt, db), ghost(kvttlset, db), ghost(expdels, _)
+//@ func (db *RockDB) SetIfEQ(ts int64, rawKey []byte, oldV []byte, value []byte, duration int64) (int64, error)
+//@   requires db != nil && db.wb != nil && ghost(kvlen, db) >= 0
+//@   callassert Put arg2 != nil && len(arg2) >= 8
+//@   ensures result0 == 0 || result0 == 1
+//@   ensures result0 == 0 && result1 == nil ==> ghost(wbputs, db.wb) == old(ghost(wbputs, db.wb)) && ghost(commits, db.rockEng) == old(ghost(commits, db.rockEng))
+//@   modifies ghost(wbputs, _), ghost(wbdels, _), ghost(wbver, _), ghost(commits, _), ghost(cputs, _), ghost(cdels, _), ghost(cver, _), ghost(tblcnt, db), ghost(kvttlset, db), ghost(expdels, _)
